@@ -13,8 +13,7 @@ open Spec (Res)
 /-- a pointer inside the specification's domain, as `ensurePathExists` splits it -/
 theorem splitSlash_of_parsePointer {path : Bytes} {toks : List Bytes}
     (h : Spec.parsePointer path = some toks) (hne : toks ≠ []) :
-    ∃ parts, splitSlash path = [] :: parts ∧ parts ≠ [] ∧ toks = parts.map decodeToken ∧
-      (∀ p ∈ parts, decodeToken p ≠ []) := by
+    ∃ parts, splitSlash path = [] :: parts ∧ parts ≠ [] ∧ toks = parts.map decodeToken := by
   cases path with
   | nil => simp [Spec.parsePointer] at h; exact absurd h hne
   | cons c cs =>
@@ -24,29 +23,18 @@ theorem splitSlash_of_parsePointer {path : Bytes} {toks : List Bytes}
     · next hc =>
       simp only [ne_eq, Decidable.not_not] at hc
       subst hc
-      split at h
-      · cases h
-      · next hany =>
-        simp only [Option.some.injEq] at h
-        rw [splitOnSlash_eq] at h hany
-        have hl := splitSlash_ne_nil cs
-        cases hs : splitSlash cs with
-        | nil => exact absurd hs hl
-        | cons p ps =>
-          have hsplit : splitSlash (47 :: cs) = [] :: p :: ps := by
-            simp [splitSlash, hs]
-          have hall : ∀ x ∈ p :: ps, x ≠ [] := by
-            intro x hx hx0
-            apply hany
-            rw [hs]
-            simp only [List.any_eq_true]
-            exact ⟨x, hx, by simp [hx0]⟩
-          refine ⟨p :: ps, hsplit, by simp, ?_, ?_⟩
-          · rw [← h, hs]
-            have hf : (Spec.decodeTok : Bytes → Bytes) = decodeToken := funext decodeTok_eq
-            rw [hf]
-          · intro x hx
-            exact decodeToken_ne_nil x (hall x hx)
+      simp only [Option.some.injEq] at h
+      rw [splitOnSlash_eq] at h
+      have hl := splitSlash_ne_nil cs
+      cases hs : splitSlash cs with
+      | nil => exact absurd hs hl
+      | cons p ps =>
+        have hsplit : splitSlash (47 :: cs) = [] :: p :: ps := by
+          simp [splitSlash, hs]
+        refine ⟨p :: ps, hsplit, by simp, ?_⟩
+        rw [← h, hs]
+        have hf : (Spec.decodeTok : Bytes → Bytes) = decodeToken := funext decodeTok_eq
+        rw [hf]
 
 /-- `ensurePath` against `ensureAdd`: the root it returns denotes a document on which the plain
 `add` answers what `ensureAdd` answers on the original document -/
@@ -60,11 +48,11 @@ theorem ensurePath_refines {o : Opts} {e : Bool} {r : Root} {path : Bytes} {toks
         ∃ r1 c, ensurePath o r path = .ok r1 ∧ InvRoot e r1 ∧
           Spec.atParent (specOpts o) (Spec.addIn (specOpts o) v) (den r1.con) toks = .fail c
     | .unspec => True := by
-  obtain ⟨parts, hs, hpne, htoks, hparts⟩ := splitSlash_of_parsePointer hp hne
+  obtain ⟨parts, hs, hpne, htoks⟩ := splitSlash_of_parsePointer hp hne
   subst htoks
   have hq' : ∀ p ∈ parts, QK e (decodeToken p) = true :=
     fun p hp' => hq _ (List.mem_map_of_mem hp')
-  have h := ensure_refines o e v parts r.selfCR r.self r.con hr.1 hr.2 hparts hq'
+  have h := ensure_refines o e v parts r.selfCR r.self r.con hr.1 hr.2 hq'
   unfold EnsRef at h
   have hep : ensurePath o r path =
       match ensure o r.selfCR r.self r.con parts with
